@@ -286,6 +286,10 @@ func runReg(c Case, res *lib.Result) (ret string) {
 	// model comparison only for the pure chunked path without the exotic variants; a descriptor of valid
 	// form with size <= 1 takes the single-request path (BlobMax cannot be set below 1)
 	validDesc := (d.Size > 0 && d.Digest.Validate() == nil) || (d.Size == 0 && d.Digest == digest.SHA256.FromBytes(nil))
+	if c.ChunkMin > 0 && strict && c.Kind == "chunked" && len(plog) > 0 {
+		// the chunk-size rule (Model/C05_Chunk.v): length of the first PATCH
+		return fmt.Sprintf("mkChunk %s %s %s %s", lib.CoqZ(int64(c.Cap)), lib.CoqZ(int64(c.ChunkMin)), lib.CoqZ(int64(len(c.Stream))), lib.CoqZ(plog[0][1]))
+	}
 	if c.ChunkMin > 0 || c.Empty00 || (c.Kind == "chunked" && validDesc && d.Size <= 1) {
 		return ""
 	}
